@@ -68,10 +68,38 @@ def r2_push_pop(idx, r):
         base_calls = [x for x in iter_calls(b.node) if (dotted(x.func) or "").endswith(".backUp") and norm(x.args[0] if x.args else ast.Constant(0)) == "self"]
         if base_calls:  # delegating implementation (Component): same brackets around both base calls
             rbase = [x for x in iter_calls(rb.node) if (dotted(x.func) or "").endswith(".restoreBackup") and x.args and norm(x.args[0]) == "self"]
-            pre = [norm(s) for s in b.node.body if not (isinstance(s, ast.Expr) and isinstance(s.value, ast.Constant))]
-            post = [norm(s) for s in rb.node.body if not (isinstance(s, ast.Expr) and isinstance(s.value, ast.Constant))]
-            ok = bool(rbase) and len(pre) == 3 and len(post) == 3 and pre[0] == post[0] and pre[2] == post[2] and "paramsToApply" in post[1]
-            r.require(ok, key + ":delegates-with-same-brackets", b, msg=f"backUp {pre} / restoreBackup {post}: linked dimensions must be lifted out before and put back after delegating, on both sides")
+            # both sides lift the dimension links out of the parameters around the delegated call (a link holds another component);
+            # which links a component has is part of the state: backUp pushes the links of that moment, restoreBackup re-installs
+            # THOSE (popped), not the ones found at restore time
+            def order(fn, base_suffix):
+                seq = []
+                for n_ in walk_local(fn.node):
+                    if isinstance(n_, ast.Call):
+                        d_ = dotted(n_.func) or ""
+                        if d_ == "self._getLinkedDimsAndValues":
+                            seq.append(("strip", n_))
+                        elif d_.endswith(base_suffix) and n_.args and norm(n_.args[0]) == "self":
+                            seq.append(("base", n_))
+                        elif d_ == "self._restoreLinkedDims":
+                            seq.append(("restore", n_))
+                return sorted(seq, key=lambda t: (t[1].lineno, t[1].col_offset))
+            sb, sr = order(b, ".backUp"), order(rb, ".restoreBackup")
+            okb = [k for k, _ in sb] == ["strip", "base", "restore"]
+            okr = bool(rbase) and [k for k, _ in sr] == ["strip", "base", "restore"] and any("paramsToApply" in norm(a) for a in sr[1][1].args)
+            r.require(okb and okr, key + ":delegates-with-same-brackets", b, msg=f"backUp {[k for k, _ in sb]} / restoreBackup {[k for k, _ in sr]}: linked dimensions must be lifted out before and put back after delegating, on both sides")
+            if okb and okr:
+                kept = next((s_ for s_ in iter_stores(b.node) if isinstance(s_.node, ast.Name) and isinstance(s_.value, ast.Call) and dotted(s_.value.func) == "self._getLinkedDimsAndValues"), None)
+                push = [s_ for s_ in iter_stores(b.node) if s_.chain and s_.chain.startswith("self._") and s_.kind == "assign" and isinstance(s_.value, ast.Tuple) and kept is not None
+                        and any(norm(e) == kept.attr for e in s_.value.elts) and any(s_.chain in norm(e) or s_.attr in norm(e) for e in s_.value.elts if norm(e) != kept.attr)]
+                r.require(kept is not None and norm(sb[2][1].args[0]) == kept.attr and len(push) == 1, key + ":links-pushed", b,
+                          msg="backUp must put the lifted links back AND push them (with the previous entry) onto a per-component stack: which dimensions are linked is part of the state a scope returns to")
+                if len(push) == 1:
+                    fld = push[0].chain
+                    pops = [x for x in walk_local(rb.node) if isinstance(x, ast.Assign) and isinstance(x.targets[0], ast.Tuple) and norm(x.value) == fld and len(x.targets[0].elts) == 2 and norm(x.targets[0].elts[1]) == fld]
+                    okp = len(pops) == 1 and norm(sr[2][1].args[0]) == norm(pops[0].targets[0].elts[0]) and pops[0].lineno < sr[2][1].lineno
+                    r.require(okp, key + ":links-popped-and-reinstalled", rb, node=sr[2][1],
+                              msg=f"restoreBackup re-installs `{norm(sr[2][1].args[0])}`: it must re-install the links saved by the matching backUp (popped from {fld}), not the links found at restore time - "
+                                  "otherwise a link broken inside the scope comes back as an unset parameter and a link made inside the scope survives it")
             continue
         tp = _tuple_push(c)
         if tp is not None:
